@@ -51,7 +51,7 @@ def gen_history(rng):
     ops = []
     for _ in range(rng.randint(3, 7)):
         ops.append((rng.choice(['numbered', 'numbered', 'numbered', 'auto', 'auto', 'none']), rng.choice(names),
-                    bytes([rng.randrange(1, 250) for _ in range(rng.randint(1, 3))])))
+                    bytes([rng.randrange(1, 250) for _ in range(rng.choice([0, 1, 1, 2, 3]))])))       # an EMPTY new version is a version too
     return init, ops
 
 
@@ -70,6 +70,13 @@ def put_source(root, name, content):
         os.unlink(os.path.join(s, n))
     with open(os.path.join(s, name), 'wb') as fh:
         fh.write(content)
+
+
+def isutf(b):
+    try:
+        b.decode('utf8'); return True
+    except Exception:
+        return False
 
 
 def is_backup_py(base, cand):
@@ -109,7 +116,12 @@ def run(ctx):
                     put_source(root, name, content)
                     before = listing(root + '/D')
                     extra = rng.choice([[], [], [], ['--no-progress'], ['--fsync'], ['--no-perms'], ['--workers', '1'], ['--no-progress', '--no-timestamps']])    # must not matter for backups
-                    r = scen.run_xcp(root, ['-r', '-T', f'--backup={mode}', '--driver', driver] + extra + ['S', 'D'], trace=False)
+                    utf8ok = all(isutf(n) and not n.startswith(b'-') for n in list(init) + [name])
+                    if hi % 3 == 2 and utf8ok:
+                        # the destination named by a BARE relative file name (no directory component), from inside the directory
+                        r = scen.run_xcp(root, [f'--backup={mode}', '--driver', driver] + extra + [b'../S/' + name, name], cwd=root + '/D', trace=False)
+                    else:
+                        r = scen.run_xcp(root, ['-r', '-T', f'--backup={mode}', '--driver', driver] + extra + ['S', 'D'], trace=False)
                     after = listing(root + '/D')
                     states.append((r.cls, after))
                     ctx.count(f'mode.{mode}'); ctx.count(f'exit.{r.cls}')
